@@ -130,6 +130,7 @@ int      sched_spawn(vthread_main_t fn, void* arg, bool reuse_id);   // returns 
 void     sched_join(int vt_index);                                   // blocks until DONE
 bool     sched_is_done(int vt_index);
 void     sched_barrier(int barrier_id, int parties);                 // blocks until `parties` vthreads arrived
+extern const char* g_sim_build_name;                                // "REL", "SEC", "DBG" or "UBS" (set by the harness)
 bool     sched_wait(uint64_t key);                                   // harness-level wait for sched_notify(key); false = gave up because nothing else could run
 void     sched_notify(uint64_t key);
 void     sched_os_point(int kind);                                   // preemption point right before a simulated OS call takes effect
